@@ -128,7 +128,9 @@ impl Prop for C11 {
             let (main, ded, game_id) = if generic {
                 if has_ded { (242_760u32, 556_450u32, "theforest") } else { (440u32, 2_000_000 + t.draw(CFG, 1_000_000) as u32, "teamfortress2") }
             } else {
-                (10 + t.draw(CFG, 1_000_000) as u32, 2_000_000 + t.draw(CFG, 1_000_000) as u32, "")
+                // (now and then the id of a game for which the client has special code: Risk of Rain 2)
+                let main = if t.draw(CFG, 10) == 0 { 632_360 } else { 10 + t.draw(CFG, 1_000_000) as u32 };
+                (main, 2_000_000 + t.draw(CFG, 1_000_000) as u32, "")
             };
             // 2400 (The Ship) and 240 (Counter-Strike: Source) select a different wire layout in the
             // client; a server of another game does not speak it, so such a pairing is outside the domain
